@@ -11,7 +11,7 @@
  *
  * Output per case (flushed line by line so that an abort names the case):
  *   begin <id> size=<n> container=<0|1|2> pol=<seekpast>,<partial>,<chunk>
- *   L <entry> <rc> [<tables> <md5> <seq> <pcm> <type hex>] opens=<n> <first path hex>    entry: path file mem cb
+ *   L <entry> <rc> [<tables> <md5> <seq> <pcm> <type hex>] opens=<n> <first path hex>    entry: path file mem cb mem2 (mem2 = memory again over a differently filled stack)
  *   T <entry> <rc> <name hex> <type hex> opens=<n> <first path hex>
  * opens = fopen/opendir calls made by the library during the call (companion files, temp files).
  *   end <id>
@@ -61,7 +61,20 @@ DIR *__wrap_opendir(const char *path)
 	return __real_opendir(path);
 }
 
-#define LIB(call) do { in_lib = 1; lib_opens = 0; first_open[0] = 0; call; in_lib = 0; } while (0)
+/* Before every API call the stack below us is filled with a known byte, so that a loader
+ * that uses an uninitialised local sees the same garbage through every entry point; the
+ * extra "mem2" runs use another byte: a result that changes with it depends on
+ * uninitialised stack memory (reported separately from back-end divergence). */
+static int stack_pat = 0x11;
+
+static void __attribute__((noinline)) scribble(int pat)
+{
+	volatile unsigned char b[1 << 18];
+	memset((void *)b, pat, sizeof(b));
+	__asm__ volatile("" ::: "memory");
+}
+
+#define LIB(call) do { scribble(stack_pat); in_lib = 1; lib_opens = 0; first_open[0] = 0; call; in_lib = 0; } while (0)
 
 static void put_opens(void)
 {
@@ -387,6 +400,11 @@ static int run_case(const char *id, const char *src, long trunc, int nedits, cha
 	LIB(rc = xmp_load_module_from_callbacks(ctx, &cst, cbs));
 	report_load("cb", ctx, rc);
 
+	stack_pat = 0xEE;
+	LIB(rc = xmp_load_module_from_memory(ctx, buf, size));
+	report_load("mem2", ctx, rc);
+	stack_pat = 0x11;
+
 	xmp_free_context(ctx);
 
 	memset(&ti, 0, sizeof(ti));
@@ -407,6 +425,12 @@ static int run_case(const char *id, const char *src, long trunc, int nedits, cha
 	cst.pos = 0;
 	LIB(rc = xmp_test_module_from_callbacks(&cst, cbs, &ti));
 	report_test("cb", rc, &ti);
+
+	memset(&ti, 0, sizeof(ti));
+	stack_pat = 0xEE;
+	LIB(rc = xmp_test_module_from_memory(buf, size, &ti));
+	report_test("mem2", rc, &ti);
+	stack_pat = 0x11;
 
 	printf("end %s\n", id);
 	fflush(stdout);
